@@ -51,6 +51,9 @@ struct RunCfg
     int maxit;
     bool shift_solver;
     std::string history;
+    // 'C' in the history = compute() with these other arguments (a second run on the same object with another rule / maxit)
+    SortRule selection2 = SortRule::LargestMagn, sorting2 = SortRule::LargestMagn;
+    int maxit2 = 0;
 };
 
 template <typename Solver>
@@ -280,6 +283,14 @@ static void glue_case(const RunCfg& cfg)
                 sym::expect("after init(): num_operations()==true applications", eigs.num_operations() == gst().true_ops, "counter mismatch after init");
                 continue;
             }
+            RunCfg cur = cfg;
+            if (h == 'C')
+            {
+                cur.selection = cfg.selection2;
+                cur.sorting = cfg.sorting2;
+                cur.maxit = cfg.maxit2;
+            }
+            gst().selection = cur.selection;
             long ops_before = gst().true_ops;
             int restarts_before = gst().restarts;
             gst().restart_k.clear();
@@ -290,17 +301,17 @@ static void glue_case(const RunCfg& cfg)
             bool threw = false;
             try
             {
-                ret = eigs.compute(cfg.selection, cfg.maxit, tol, cfg.sorting);
+                ret = eigs.compute(cur.selection, cur.maxit, tol, cur.sorting);
             }
             catch (const std::invalid_argument& e)
             {
                 threw = true;
             }
             sym::expect("invalid_argument iff a rule is unsupported", threw == !(sel_ok && sort_ok),
-                        std::string(threw ? "threw" : "accepted") + " selection=" + rule_name(cfg.selection) + " sorting=" + rule_name(cfg.sorting));
+                        std::string(threw ? "threw" : "accepted") + " selection=" + rule_name(cur.selection) + " sorting=" + rule_name(cur.sorting));
             if (threw || !(sel_ok && sort_ok))
                 break;
-            check_after_compute(eigs, cfg, tol, ret, sigma, ops_before, restarts_before, "compute#" + std::to_string(step));
+            check_after_compute(eigs, cur, tol, ret, sigma, ops_before, restarts_before, "compute#" + std::to_string(step));
         }
     };
     if (cfg.shift_solver)
@@ -398,6 +409,8 @@ int main(int argc, char** argv)
     auto add = [&](const std::string& fam, RunCfg c) {
         std::string nm = fam + "/n" + std::to_string(c.n) + "k" + std::to_string(c.nev) + "m" + std::to_string(c.ncv) + "/" + rule_name(c.selection) + "/" +
             rule_name(c.sorting) + "/maxit" + std::to_string(c.maxit) + "/" + c.history + (c.shift_solver ? "/shift" : "");
+        if (c.history.find('C') != std::string::npos)
+            nm += std::string("/then-") + rule_name(c.selection2) + "-" + rule_name(c.sorting2) + "-maxit" + std::to_string(c.maxit2);
         cases.push_back({nm, [c]() { glue_case(c); }});
     };
     const SortRule sels[] = {SortRule::LargestMagn, SortRule::LargestReal, SortRule::LargestImag, SortRule::SmallestMagn, SortRule::SmallestReal, SortRule::SmallestImag};
@@ -414,6 +427,18 @@ int main(int argc, char** argv)
             add("genhist", RunCfg{sz[0], sz[1], sz[2], SortRule::LargestReal, SortRule::LargestMagn, maxit, false, "icc"});
             add("genhist", RunCfg{sz[0], sz[1], sz[2], SortRule::SmallestReal, SortRule::LargestMagn, maxit, false, "icic"});
         }
+    // a second compute() with OTHER arguments on the same object, no init() in between
+    {
+        for (int maxit = 0; maxit <= 1; maxit++)
+            for (int maxit2 = 0; maxit2 <= 1; maxit2++)
+                for (int sh = 0; sh < 2; sh++)
+                    add("genhist2", RunCfg{5, 1, 3, SortRule::LargestReal, SortRule::LargestMagn, maxit, sh == 1, "icC", SortRule::SmallestReal, SortRule::LargestReal, maxit2});
+        const int fs[][3] = {{3, 1, 3}, {4, 2, 4}};
+        for (auto& sz : fs)
+            for (int maxit2 = 0; maxit2 <= 2; maxit2 += 2)
+                for (int sh = 0; sh < 2; sh++)
+                    add("genfull2", RunCfg{sz[0], sz[1], sz[2], SortRule::LargestMagn, SortRule::LargestMagn, 2, sh == 1, "icC", SortRule::SmallestReal, SortRule::LargestReal, maxit2});
+    }
     const int full[][3] = {{3, 1, 3}, {4, 1, 4}, {4, 2, 4}, {5, 2, 5}};
     for (auto& sz : full)
         for (SortRule sel : sels)
